@@ -11,6 +11,7 @@ from obl.C15 import (parse_ext, parse_msg, _shapes_ext, _shapes_msg,
 import tlslite.messages as M
 import tlslite.extensions as X
 from tlslite.utils.codec import Parser
+from tlslite.errors import TLSAbruptCloseError
 
 
 def _shapes_c08_1(tier):
@@ -52,3 +53,115 @@ def c08_1(I, shape):
                detail=repr(e))
         return
     I.check(AND(p.index >= 0, p.index <= len(buf)), "index-within-buffer")
+
+
+# ---------------------------------------------------------------------------
+# C08.2  semantic checks of the hello processing: one extension payload of a
+#        ClientHello is arbitrary
+# ---------------------------------------------------------------------------
+from models.conn import record, split_records
+from models.hello import (hello_proxies, hello_stubs, HELLO_ASSUMES,
+                          server_conn, run_server_hello, ch_bytes,
+                          std_extensions, raw_ext, settings_family, Cut,
+                          RSA_CHAIN, RSA_KEY)
+from tlslite.constants import (ContentType, ExtensionType, AlertLevel,
+                               CipherSuite, GroupName)
+from tlslite.handshakesettings import HandshakeSettings
+import tlslite.extensions as _X
+
+_CH_EXT_TYPES = None
+
+
+def ch_ext_types():
+    global _CH_EXT_TYPES
+    if _CH_EXT_TYPES is None:
+        t = sorted(_X.TLSExtension._universalExtensions.keys())
+        # extended_master_secret / encrypt_then_mac / post_handshake_auth /
+        # early_data have no class: generic payload
+        t += [ExtensionType.extended_master_secret,
+              ExtensionType.encrypt_then_mac,
+              ExtensionType.post_handshake_auth, ExtensionType.early_data,
+              0xfafa]
+        _CH_EXT_TYPES = sorted(set(t))
+    return _CH_EXT_TYPES
+
+
+def _shapes_c08_2(tier):
+    out = []
+    for t in ch_ext_types():
+        top = 6 if tier == "quick" else 10
+        if t == ExtensionType.server_name:
+            top = min(top, 6)       # host name bytes are decoded one by one
+        if t == ExtensionType.supported_groups and tier == "quick":
+            top = 4
+        lens = list(range(0, top + 1))
+        if t == ExtensionType.pre_shared_key:
+            lens += [12, 13]        # one identity + one binder fit from 12
+        for L in lens:
+            for tls13 in (True, False):
+                out.append(dict(ext=t, L=L, tls13=tls13))
+    return out
+
+
+@obligation("C08.2", _shapes_c08_2,
+            functions=["tlslite.tlsconnection:TLSConnection."
+                       "_serverGetClientHello",
+                       "tlslite.tlsconnection:TLSConnection."
+                       "_server_select_certificate",
+                       "tlslite.tlsrecordlayer:TLSRecordLayer._getMsg",
+                       "tlslite.tlsrecordlayer:TLSRecordLayer._sendError",
+                       "tlslite.messages:ClientHello.parse",
+                       "tlslite.extensions:*.parse"],
+            assumes=HELLO_ASSUMES + [
+                "ClientHello = a well-formed template (TLS 1.3 capable or "
+                "TLS 1.2 only) in which ONE extension - every registered "
+                "type in turn, plus the class-less ones and an unknown type - "
+                "carries L arbitrary symbolic payload bytes; default server "
+                "settings with RSA credentials, session cache and ticket "
+                "keys absent"],
+            patches=lambda s: (hello_proxies(), hello_stubs()),
+            max_paths=30000, timeout=(400, 1500))
+def c08_2(I, shape):
+    """every way the server can react to a malformed extension is a return,
+    or a fatal alert that is on the wire before TLSLocalAlert is raised;
+    never an unrelated Python exception"""
+    t, L = shape["ext"], shape["L"]
+    payload = I.bytes(L, "ext")
+    exts = std_extensions(shape["tls13"])
+    # drop the template's own instance of this type, put the symbolic one in
+    # (pre_shared_key must be last to get past the position check)
+    exts = [e for e in exts if e.extType != t]
+    sym = raw_ext(t, payload)
+    if shape["tls13"] and t == ExtensionType.pre_shared_key:
+        exts.append(_X.PskKeyExchangeModesExtension().create([1]))
+    exts.append(sym)
+    suites = [CipherSuite.TLS_AES_128_GCM_SHA256,
+              CipherSuite.TLS_ECDHE_RSA_WITH_AES_128_GCM_SHA256,
+              CipherSuite.TLS_RSA_WITH_AES_128_CBC_SHA]
+    wire = record(ContentType.handshake,
+                  ch_bytes((3, 3), suites, exts, session_id=b""))
+    conn = server_conn(wire)
+    settings = settings_family()["default"]
+    try:
+        out = run_server_hello(conn, settings, RSA_CHAIN, RSA_KEY,
+                               alpn=[bytearray(b"h2")])
+    except (PathAbort, Unsupported):
+        raise
+    except TLSAbruptCloseError:
+        # the template ends after the first ClientHello: a HelloRetryRequest
+        # was sent and the second hello never came
+        I.cover("wire ended")
+        return
+    except Exception as e:
+        I.fail("server hello processing raised %s" % type(e).__name__,
+               detail=repr(e))
+        return
+    if out["kind"] == "alert":
+        sent = out["sent"]
+        I.check(len(sent) >= 1 and sent[-1][0] == ContentType.alert and
+                bool(AND(sent[-1][2][0] == AlertLevel.fatal,
+                         sent[-1][2][1] == out["alert"].description)),
+                "fatal-alert-on-the-wire-before-raising")
+        I.check(conn.closed, "closed-after-alert")
+    else:
+        I.cover(out["kind"])
